@@ -1041,3 +1041,145 @@ Proof.
 Qed.
 
 End PhysicalWf.
+
+(* ---------------------------------------------------------------- the premises, on the logical table *)
+
+(* a cell the round trip preserves: an int64, a string without CR *)
+Definition cell_rt_ok (c : cell) : Prop :=
+  match c with
+  | CInt z => in_int64 z = true
+  | CStr (Some s) | CEnum (Some s) => no_cr s = true
+  | _ => True
+  end.
+
+(* an enum column: at most 255 values (every ecolumn), and a null among the indexed rows only when the reader
+   can produce one: EmptyNull, or the empty string is a value, or the table is empty (non-strict reading) *)
+Definition enum_null_ok (e : bool) (index : list nat) (c : coldata) : Prop :=
+  match c with
+  | ECol d vs st =>
+      (length vs <= enum_max_cardinality)%nat /\
+      (e = true \/ vs = [] \/ In [] vs \/ forall p, In p index -> nth_error d p <> Some c_nullValue)
+  | _ => True
+  end.
+
+Lemma enum_cells_null d vs st : forall index zs,
+  omap (cell_at (ECol d vs st)) index = Ok (map CEnum zs) -> In None zs ->
+  exists p, In p index /\ nth_error d p = Some c_nullValue.
+Proof.
+  induction index as [|p index IH]; intros zs H Hin.
+  - cbn in H. destruct zs; [destruct Hin | discriminate].
+  - apply omap_cons_ok in H as (y & ys & Hy & Hys & Heq).
+    destruct zs as [|z zs]; [discriminate|]. cbn [map] in Heq. inversion Heq; subst y ys.
+    destruct Hin as [->|Hin].
+    + exists p. split; [left; reflexivity|].
+      cbn [cell_at] in Hy. unfold idx at 1 in Hy.
+      destruct (nth_error d p) as [r|] eqn:E; cbn [of_option obind] in Hy; [|discriminate].
+      unfold enum_string in Hy. destruct (enum_is_null r) eqn:N.
+      * unfold enum_is_null in N. apply N.eqb_eq in N. subst r. reflexivity.
+      * unfold idx in Hy. destruct (nth_error vs (N.to_nat r)); cbn [of_option obind] in Hy; [inversion Hy | discriminate].
+    + destruct (IH zs Hys Hin) as (q & Hq & Hd). exists q. split; [right; exact Hq | exact Hd].
+Qed.
+
+Lemma Forall_map_inv {A B} (P : B -> Prop) (g : A -> B) l : Forall P (map g l) -> Forall (fun x => P (g x)) l.
+Proof. intros H. apply Forall_forall. intros x Hx. rewrite Forall_forall in H. apply H. apply in_map. exact Hx. Qed.
+
+Lemma observed_col_prem e c index xs :
+  omap (cell_at c) index = Ok xs -> Forall cell_rt_ok xs -> enum_null_ok e index c ->
+  exists col, typed_column (col_type c) (enum_values c) xs = Ok col
+    /\ col_no_cr col = true /\ col_in_int64 col = true /\ enum_side_ok e col = true
+    /\ CsvSpec.col_len col = length xs.
+Proof.
+  intros H Hok Hen. pose proof (col_cells_shape c index xs H) as S.
+  destruct c as [d|d|d|d|d vs st]; cbn [col_type] in *; destruct S as (zs & ->); unfold typed_column.
+  - rewrite (omap_prj_inj CInt) by reflexivity. eexists. split; [reflexivity|].
+    cbn [col_no_cr col_in_int64 enum_side_ok CsvSpec.col_len]. rewrite map_length. repeat split.
+    apply forallb_forall. intros z Hz. apply Forall_map_inv in Hok. rewrite Forall_forall in Hok. exact (Hok z Hz).
+  - rewrite (omap_prj_inj CFloat) by reflexivity. eexists. split; [reflexivity|].
+    cbn [col_no_cr col_in_int64 enum_side_ok CsvSpec.col_len]. rewrite map_length. auto.
+  - rewrite (omap_prj_inj CBool) by reflexivity. eexists. split; [reflexivity|].
+    cbn [col_no_cr col_in_int64 enum_side_ok CsvSpec.col_len]. rewrite map_length. auto.
+  - rewrite (omap_prj_inj CStr) by reflexivity. eexists. split; [reflexivity|].
+    cbn [col_no_cr col_in_int64 enum_side_ok CsvSpec.col_len]. rewrite map_length. repeat split.
+    apply forallb_forall. intros o Ho. apply Forall_map_inv in Hok. rewrite Forall_forall in Hok.
+    specialize (Hok o Ho). destruct o; [exact Hok | reflexivity].
+  - rewrite (omap_prj_inj CEnum) by reflexivity. eexists. split; [reflexivity|].
+    cbn [col_no_cr col_in_int64 enum_side_ok CsvSpec.col_len enum_values]. rewrite map_length.
+    cbn [enum_null_ok] in Hen. destruct Hen as [Hlen Hnull].
+    pose proof (enum_cells_in d vs st index zs H) as Hin. rewrite Forall_forall in Hin.
+    split; [|split; [reflexivity|split; [|reflexivity]]].
+    + apply forallb_forall. intros o Ho. apply Forall_map_inv in Hok. rewrite Forall_forall in Hok.
+      specialize (Hok o Ho). destruct o; [exact Hok | reflexivity].
+    + apply andb_true_iff. split; [|apply Nat.leb_le; exact Hlen].
+      apply forallb_forall. intros o Ho. destruct o as [s|].
+      * specialize (Hin (Some s) Ho). cbn in Hin.
+        assert (existsb (bytes_eqb s) vs = true) as ->
+          by (apply existsb_exists; exists s; split; [exact Hin | apply bytes_eqb_refl]).
+        rewrite orb_true_r. reflexivity.
+      * destruct Hnull as [->|[->|[H0|Hno]]]; try reflexivity.
+        -- destruct e; reflexivity.
+        -- assert (existsb (bytes_eqb []) vs = true) as ->
+             by (apply existsb_exists; exists []; split; [exact H0 | reflexivity]).
+           rewrite !orb_true_r. reflexivity.
+        -- exfalso. destruct (enum_cells_null d vs st index zs H Ho) as (p & Hp & Hd). exact (Hno p Hp Hd).
+Qed.
+
+Lemma Forall_zipc (P : cell -> Prop) : forall xs rs,
+  length xs = length rs -> Forall (Forall P) (zipc xs rs) -> Forall P xs /\ Forall (Forall P) rs.
+Proof.
+  induction xs as [|x xs IH]; intros [|r rs] Hl H; try discriminate; [split; constructor|].
+  cbn [zipc] in H. inversion H as [|? ? Hxr Hrest]; subst. inversion Hxr as [|? ? Hx0 Hr0]; subst.
+  destruct (IH rs) as [I1 I2]; [cbn in Hl; lia | exact Hrest|]. split; constructor; assumption.
+Qed.
+
+Lemma observe_cols_prem e f : forall cs rows,
+  (forall nc, In nc cs -> lookup_col f (fst nc) = Some (snd nc)) ->
+  rows_of cs (ix f) = Ok rows ->
+  Forall (Forall cell_rt_ok) rows ->
+  Forall (fun nc => CsvRead.check_name (fst nc) = true /\ no_cr (fst nc) = true /\ enum_null_ok e (ix f) (snd nc)) cs ->
+  exists obs, omap (observe_one f) cs = Ok obs /\ map fst obs = map fst cs /\
+    forallb (fun nc => CsvRead.check_name (fst nc) && no_cr (fst nc) && col_no_cr (snd nc)
+                       && col_in_int64 (snd nc) && enum_side_ok e (snd nc)
+                       && Nat.eqb (CsvSpec.col_len (snd nc)) (length (ix f))) obs = true.
+Proof.
+  induction cs as [|[n c] cs IH]; intros rows Hlk Hrows Hok Hcs.
+  - exists []. repeat split.
+  - apply rows_of_cons in Hrows as (xs & rows' & Hxs & Hrows' & ->).
+    assert (Hxl : length xs = length (ix f)) by (apply (omap_len _ _ _ Hxs)).
+    apply Forall_zipc in Hok as [Hx Hr]; [|rewrite Hxl; symmetry; apply (rows_of_len _ _ _ Hrows')].
+    inversion Hcs as [|? ? (N1 & N2 & N3) Hcs']; subst. cbn [fst snd] in *.
+    destruct (IH rows') as (obs & Hobs & Hnames & Hall); try assumption;
+      [intros nc Hin; apply Hlk; right; exact Hin|].
+    destruct (observed_col_prem e c (ix f) xs Hxs Hx N3) as (col & Hcol & P1 & P2 & P3 & P4).
+    assert (Hone : observe_one f (n, c) = Ok (n, col)).
+    { pose proof (Hlk (n, c) (or_introl eq_refl)) as Hl. cbn [fst snd] in Hl.
+      unfold observe_one, observe_named, get_view. cbn [fst snd].
+      rewrite Hl. rewrite ctype_eqb_refl. cbn [obind].
+      rewrite (view_items_slice (mkView c (ix f)) xs Hxs). cbn [obind v_col]. rewrite Hcol. reflexivity. }
+    exists ((n, col) :: obs). split; [|split].
+    + cbn [omap]. rewrite Hone. cbn [obind]. rewrite Hobs. reflexivity.
+    + cbn [map fst]. f_equal. exact Hnames.
+    + cbn [forallb fst snd]. rewrite Hall, N1, N2, P1, P2, P3, P4, Hxl, Nat.eqb_refl. reflexivity.
+Qed.
+
+(* phys_premises from conditions on the logical table and the enum columns *)
+Theorem phys_premises_intro e (f : frame) (t : table) :
+  abs f = Ok t -> NoDup (col_names f) -> cols f <> [] ->
+  Forall (fun n => CsvRead.check_name n = true /\ no_cr n = true) (col_names f) ->
+  Forall (Forall cell_rt_ok) (trows t) ->
+  Forall (fun nc => enum_null_ok e (ix f) (snd nc)) (cols f) ->
+  phys_premises e f = true.
+Proof.
+  intros Ht Hnd Hne Hnames Hcells Henum. destruct (abs_ok f t Ht) as (R & _ & _).
+  destruct (observe_cols_prem e f (cols f) (trows t)) as (obs & Hobs & Hn & Hall); try assumption.
+  - intros nc Hin. apply lookup_col_nodup; assumption.
+  - apply Forall_forall. intros nc Hnc. rewrite Forall_forall in Hnames, Henum.
+    destruct (Hnames (fst nc)) as [H1 H2]; [unfold col_names; apply in_map; exact Hnc|].
+    repeat split; try assumption. apply Henum. exact Hnc.
+  - unfold phys_premises, observe_frame. fold (observe_one f). rewrite Hobs. unfold rt_premises. rewrite Hall.
+    assert (has_dup (map fst obs) = false) as ->.
+    { rewrite Hn. fold (col_names f). destruct (has_dup (col_names f)) eqn:D; [|reflexivity]. exfalso.
+      clear - D Hnd. induction (col_names f) as [|x l IH]; [discriminate|]. cbn [has_dup] in D.
+      inversion Hnd; subst. apply orb_true_iff in D as [D|D]; [|apply IH; assumption].
+      apply existsb_exists in D as (y & Hy & E). apply bytes_eqb_spec in E. subst. contradiction. }
+    destruct obs; [|reflexivity]. destruct (cols f); [congruence | discriminate Hn].
+Qed.
